@@ -11,7 +11,8 @@ import (
 func (g *pgen) corpus(focus string, start int) []*ConvSpec {
 	if focus == "c07" {
 		out := g.corpusC07(start)
-		return append(out, g.corpusC12(start+len(out))...) // wrap modes written on the method against the converter's
+		out = append(out, g.corpusC12(start+len(out))...) // wrap modes written on the method against the converter's
+		return append(out, g.corpusC07keys(start+len(out))...)
 	}
 	if focus == "c04" {
 		return append(g.corpusSettings(start), g.corpusC04(start+3)...)
@@ -196,6 +197,20 @@ func (g *pgen) corpusC03(start int) []*ConvSpec {
 func (g *pgen) corpusC10(start int) []*ConvSpec {
 	var out []*ConvSpec
 	str, i := tBasic(bkString), tBasic(bkInt)
+	// source and target of the update method are the SAME struct type, with skipCopySameType: the fields are still written
+	// through the target pointer one by one (the struct rule is applied directly, not the SkipCopy rule)
+	for _, srcPtr := range []bool{true, false} {
+		for _, extra := range [][]string{nil, {"update:ignoreZeroValueField"}} {
+			t := g.newNamed(1, &Ty{K: "struct", Pkg: 1, Fields: []Field{{"Name", str}, {"Age", i}, {"Tags", tSlice(str)}, {"Keep", str}}}, "T")
+			c := &ConvSpec{Name: fmt.Sprintf("C%d", start+len(out)), Lines: []string{"skipCopySameType"}}
+			src := tNamed(t)
+			if srcPtr {
+				src = tPtr(src)
+			}
+			c.Methods = []*MethodSpec{{Name: "M0", Src: src, Tgt: tPtr(tNamed(t)), Update: true, Lines: append([]string{"update target", "ignore Keep"}, extra...), Fields: map[string]*fieldSet{"Keep": {Ignore: true}}}}
+			out = append(out, c)
+		}
+	}
 	flagSets := [][]string{
 		{"update:ignoreZeroValueField"},
 		{"update:ignoreZeroValueField:basic"},
@@ -440,6 +455,40 @@ func (g *pgen) corpusC18(start int) []*ConvSpec {
 			c.Methods = []*MethodSpec{{Name: "M0", Src: tNamed(s), Tgt: tPtr(tNamed(t)), Update: true, Lines: []string{"update target", line}, Fields: map[string]*fieldSet{}}}
 			out = append(out, c)
 		}
+	}
+	return out
+}
+
+// corpusC07keys: the conversion of a map KEY is the only fallible step: its error is located at the source key (Key
+// element) like an error of the value conversion, at the top level of a method, below a field and below a slice.
+func (g *pgen) corpusC07keys(start int) []*ConvSpec {
+	var out []*ConvSpec
+	for i, wrap := range []string{"wrapErrorsUsing example.org/m/werr", "wrapErrors", ""} {
+		nk := g.newNamed(1, tBasic(bkInt), "NK")
+		nk2 := g.newNamed(1, tBasic(bkInt), "NK")
+		// a function fails iff leaf(source) = index (mod 5): pad the function table so that the boundary key 42 fails and 0 succeeds
+		for len(g.p.Funcs)%5 != 2 {
+			d := &FuncDecl{Idx: len(g.p.Funcs), Pkg: 1, Tgt: tBasic(bkInt), Params: []FnParam{{Name: "src", T: tBasic(bkInt), Role: 0}}}
+			d.Name = fmt.Sprintf("Pad%d", d.Idx)
+			g.p.Funcs = append(g.p.Funcs, d)
+		}
+		f := &FuncDecl{Idx: len(g.p.Funcs), Pkg: 1, Tgt: tNamed(nk2), Err: true, Params: []FnParam{{Name: "src", T: tNamed(nk), Role: 0}}}
+		f.Name = fmt.Sprintf("Ext%d", f.Idx)
+		g.p.Funcs = append(g.p.Funcs, f)
+		ms, mt := tMap(tNamed(nk), tBasic(bkString)), tMap(tNamed(nk2), tBasic(bkString))
+		s := g.newNamed(1, &Ty{K: "struct", Pkg: 1, Fields: []Field{{"Codes", ms}, {"Rows", tSlice(ms)}, {"N", tBasic(bkInt)}}}, "S")
+		t := g.newNamed(1, &Ty{K: "struct", Pkg: 1, Fields: []Field{{"Codes", mt}, {"Rows", tSlice(mt)}, {"N", tBasic(bkInt)}}}, "T")
+		c := &ConvSpec{Name: fmt.Sprintf("C%d", start+i), Custom: true, FuncNames: map[string]int{}}
+		if wrap != "" {
+			c.Lines = append(c.Lines, wrap)
+		}
+		c.Lines = append(c.Lines, "extend "+f.Name)
+		c.Extend = []ExtSpec{{Text: f.Name, Exact: f.Idx}}
+		c.Methods = []*MethodSpec{
+			{Name: "M0", Src: ms, Tgt: mt, Err: true, Fields: map[string]*fieldSet{}},
+			{Name: "M1", Src: tNamed(s), Tgt: tNamed(t), Err: true, Fields: map[string]*fieldSet{}},
+		}
+		out = append(out, c)
 	}
 	return out
 }
